@@ -5,6 +5,8 @@ ID="$1"; NAME="${2:-$1}"; TIER="${3:-quick}"; OUT="/verif/seeded/$NAME"
 cd /verif
 PATCH="$OUT/patch.diff"; [ -f "$OUT/patch.ported.diff" ] && PATCH="$OUT/patch.ported.diff"
 git -C /repo apply "$PATCH" || { echo "patch does not apply to /repo"; exit 1; }
+# evidence and replays of a run against a changed tree never land in /verif
+export XSMC_OUT=/tmp/xsmc-seed-out; mkdir -p "$XSMC_OUT"
 ./check "$ID" "$TIER" > "$OUT/check_$TIER.log" 2>&1; CHECK=$?
 git -C /repo checkout -- .
 echo "check_exit=$CHECK"
